@@ -395,7 +395,8 @@ def argv_space(tier, maxside=None):
     toks = SIDE_TOKENS_T if tier == 'thorough' else SIDE_TOKENS
     sides = [[]]
     for n in range(1, maxside + 1):
-        sides += [list(s) for s in itertools.product(toks, repeat=n)]
+        sides += [list(s) for s in itertools.product(
+            toks if n == 1 else SIDE_TOKENS, repeat=n)]
     suffixes = [[]] + [[t] for t in toks] + [['T']]
     seen = set()
 
@@ -970,6 +971,33 @@ class Explorer(object):
             else:
                 w.do_table_op(op)
 
+    def sig_tail(self, kind, x):
+        """':opt=..:name=..' if the comparison option / the spelling of the
+        reference name is part of the root cause, decided by a control
+        experiment: regenerate and repeat the same assertion with default
+        options and the plain lower-case name; if that fails too, the
+        option / name is not the cause.  (Only runs after a violation; the
+        sandbox is rebuilt for the next transition anyway.)"""
+        if not self.tail:
+            return ''
+        w = self.w
+        sink = Sink()
+        try:
+            with contextlib.redirect_stdout(sink), \
+                    contextlib.redirect_stderr(sink):
+                w.reset_modules()
+                w.reset_disk()
+                names = ref_names(self.atype, kind, 'lower')
+                w.RT.set_regeneration(None, True)
+                o1, _ = w.do_assert(w.instance(self.via), self.atype, kind,
+                                    self.content.actual[x], names, {})
+                w.RT.set_regeneration(None, False)
+                o2, _ = w.do_assert(w.instance(self.via), self.atype, kind,
+                                    self.content.actual[x], names, {})
+        except Exception:
+            return self.tail
+        return self.tail if (o1 == 'pass' and o2 == 'pass') else ''
+
     def viol(self, sig, clause, hist, op, **detail):
         d = {'type': self.atype, 'via': self.via, 'history': hist, 'op': op,
              'contents': self.content.ids, 'options': self.content.optid,
@@ -1083,8 +1111,8 @@ class Explorer(object):
             if touched:
                 what = sorted(set([d[0] for d in diff] +
                                   [e[0] for e in log]))
-                self.viol('normal-mode-touches-reference:%s:%s:%s%s' % (
-                    tname, outcome.split(':')[0], '+'.join(what), self.tail),
+                self.viol('normal-mode-touches-reference:%s:%s:%s' % (
+                    tname, outcome.split(':')[0], '+'.join(what)),
                     'normal-mode-never-touches-reference', hist, op,
                     outcome=outcome, audit=log[:6], snapshot_diff=diff[:6],
                     model_table=list(spec.table_key(ms.table)),
@@ -1098,14 +1126,13 @@ class Explorer(object):
                 cause = c.cause(x, refs[0], kind)
                 self.viol('regenerated-reference-fails:%s:%s:%s%s' % (
                     tname, cause, outcome,
-                    '' if cause.startswith('dtype[') else self.tail),
+                    self.sig_tail(kind, x)),
                     'regenerated-reference-passes',
                     hist, op, outcome=outcome, exception=repr(exc)[:600],
                     disk=list(disk_before))
                 return None, 'normal-wrong-outcome'
             if passes is False and outcome == 'pass':
-                self.viol('normal-mode-passes-on-wrong-reference:%s%s'
-                          % (tname, self.tail),
+                self.viol('normal-mode-passes-on-wrong-reference:%s' % tname,
                           'normal-mode-compares', hist, op, outcome=outcome,
                           disk=list(disk_before))
                 return None, 'normal-wrong-outcome'
@@ -1117,22 +1144,21 @@ class Explorer(object):
             # ---------------- regeneration mode
             if exc is not None:
                 self.viol('regeneration-raises:%s:%s%s' % (
-                    tname, type(exc).__name__, self.tail),
+                    tname, type(exc).__name__, self.sig_tail(kind, x)),
                     'regeneration-writes-reference',
                     hist, op, outcome=outcome, exception=repr(exc)[:600],
                     kind=kname(kind))
                 return None, 'regen-raises'
             stray = [d for d in diff if d[1] not in own]
             if stray:
-                self.viol('regeneration-touches-other-reference:%s%s'
-                          % (tname, self.tail),
+                self.viol('regeneration-touches-other-reference:%s' % tname,
                           'only-the-selected-reference', hist, op,
                           snapshot_diff=diff[:6], own=sorted(own))
                 return None, 'regen-stray'
             changed = set(d[1] for d in diff)
             if not own <= changed:
                 self.viol('regeneration-does-not-write:%s%s'
-                          % (tname, self.tail),
+                          % (tname, self.sig_tail(kind, x)),
                           'regeneration-writes-reference', hist, op,
                           snapshot_diff=diff[:6], own=sorted(own))
                 return None, 'regen-not-written'
@@ -1161,8 +1187,7 @@ class Explorer(object):
                 b2, seams.snapshot(w.ref_roots)) if d[1] in known]
             R.ev()
             if log2 or d2:
-                self.viol('followup-touches-reference:%s%s'
-                          % (tname, self.tail),
+                self.viol('followup-touches-reference:%s' % tname,
                           'normal-mode-never-touches-reference', hist, op,
                           audit=log2[:6], snapshot_diff=d2[:6], outcome=out2)
                 return None, 'followup-touched'
@@ -1174,7 +1199,7 @@ class Explorer(object):
                 cause = c.cause(x, refs[0], kind)
                 self.viol('regenerated-reference-fails:%s:%s:%s%s' % (
                     tname, cause, out2,
-                    '' if cause.startswith('dtype[') else self.tail),
+                    self.sig_tail(kind, x)),
                     'regenerated-reference-passes',
                     hist, op, outcome=out2, exception=repr(exc2)[:600],
                     disk=list(disk_after))
